@@ -10,5 +10,5 @@ CONSTANTS
   Cfgs <- CfgsNA8
   Junk = 34
   EmitOn = TRUE
-INVARIANTS ResumeEqFresh Stable OffsSane Emit EmitTwo EmitByte
+INVARIANTS ResumeEqFresh Idempotent Stable OffsSane Emit EmitTwo EmitByte
 CHECK_DEADLOCK FALSE
